@@ -364,6 +364,27 @@ def run_history(specs, checks, dialect='new', comma=False, res=None):
     return tr, res
 
 
+def run_long_history(specs, checks, dialect='new', res=None):
+    """thousands of messages: every step goes through the tool and the model, the (table-wide) comparisons are made where
+    something can change - around the incarnation counts at which the letters grow (26/27, 702/703), at every 97th step
+    and over the last 60 steps"""
+    res = res or Result()
+    res.evals = 0
+    tr = Tracker(dialect)
+    n = len(specs)
+    for k, spec in enumerate(specs):
+        msg, rec = tr.apply(spec)
+        gens = [o.gen for o in [rec['target']] + [a for a in rec['args'] if a is not None] + ([rec['destroyed']] if rec['destroyed'] is not None else []) if not o.ghost]
+        near = any(g in (24, 25, 26, 27, 28, 700, 701, 702, 703, 704) for g in gens)
+        if near or k % 97 == 0 or k >= n - 60:
+            for chk in checks:
+                chk(tr, msg, rec, res)
+        if len(res.discs) > 20:
+            break
+    res.count('tool-warnings-on-wellformed-input', tr.warnings)
+    return tr, res
+
+
 # ------------------------------------------------------------------------------------------------
 # Hypothesis rule-based machine over the step kinds of histgen
 
